@@ -64,6 +64,13 @@ func replayBytes(scratch string, b []byte) ([]*wal.Entry, string) {
 	} else if st.EntriesSkipped > 0 {
 		status = "cut"
 	}
+	// the decision wal.ReuseWAL takes on this file (append behind it or start a new one) is
+	// the model's [status_clean (snd (replay_file f))] of WalReuse.reuse_append: it must say
+	// "clean" exactly when the replay above ended cleanly, else the statuses compared with
+	// the model differ and the case is reported
+	if clean := wal.IsCleanWALFile(p); clean != (status == "clean") && !strings.HasPrefix(status, "error") {
+		status = fmt.Sprintf("reuse-decision-%v-but-replay-%s", clean, status)
+	}
 	return es, status
 }
 
